@@ -204,7 +204,12 @@ class Exec:
             kw["vertices"] = self.as_kind(self.gs(op["vertices"]), op.get("as"))
         if op.get("laws") is not None:
             kw["laws"] = self.g(op["laws"])
-        u = cls(attributes={"sim_tag": op.get("tag", 0)}, **kw)
+        attrs = {"sim_tag": op.get("tag", 0)}
+        if op.get("attr_laws") is not None:
+            # a law set handed over through the generic attribute dictionary,
+            # i.e. assigned to `laws` while the universe is still being built
+            attrs["laws"] = self.g(op["attr_laws"])
+        u = cls(attributes=attrs, **kw)
         self.w.add(op["new"], u)
         return u
 
